@@ -19,3 +19,5 @@ long sweep_total (void);
 int sweep_gen (long idx, sb_t *out, char *desc, size_t dlen);
 /* measures the filler statements of the code-size family; size_of compiles a text and returns program_size (or -1) */
 void sweep_calibrate (int (*size_of) (const unsigned char *, size_t));
+int sweep_calibration_export (int *v, int max);
+void sweep_calibration_import (const int *v, int n);
